@@ -30,6 +30,17 @@ Three bounded exhaustive explorations on the real code (engine: gridmc; nothing 
     containers (polynomial identity N - E O = 0; the multislater energy is a finite-difference quantity,
     eps = 1e-4, so the tolerance is 1e-5 relative; measured ~1e-6).
 
+(4) high excitation ranks.  7 orbitals (4,3) (also 6 orbitals (3,2)/(3,3), 8 orbitals (4,1)/(4,4) in the thorough tier): one determinant per
+    excitation class incl. same-spin rank 3 (4), coefficient basis {pair, unit, dense}, aufbau and non-aufbau references,
+    overlap and local energy through the public batched entry points for both walker containers, on a generic
+    lower-set grid (degree 2-3 < n_up+n_dn: a declared cap) against the Fock model (H assembled from the string spaces).
+
+(5) call histories.  get_excitations / read_dets / get_fci_state take caller-owned containers (state dict, determinant
+    file, FCI object).  Every word of length <= 3 (4) over a menu of calls is run on ONE container; after every call the
+    container must be bitwise unchanged and the result must mean the separately held list (library overlap on the walker
+    grid vs the Fock sum; distinct results are judged once).  A result that is wrong only after an earlier call is
+    attributed to the mutation if one was seen, else reported as history dependence.
+
 (3) driver level.  driver.afqmc with that exact trial on tiny systems over the option matrix
     walker container x n_batch x sampler shape x n_eql x seed list: every block energy in samples_raw.dat
     and the returned mean equal E_0.  "Every seed" is decided by (2) (the identity holds for every walker);
@@ -53,7 +64,10 @@ from mc.core import Result
 
 ID = "C11"
 TECHNIQUE = ("exhaustive enumeration of determinant lists (every reference x order x cut-off x source) on walker "
-             "product grids against the Fock-space sum; exact-eigenvector local energy on the grid; driver option matrix")
+             "product grids against the Fock-space sum; excitation classes up to same-spin rank 3 (rank 4 thorough) on 6-8 orbitals, "
+             "overlap and energy, both containers; call histories (every word <= 3-4 over a menu of cut-offs) on caller-owned "
+             "state dicts / determinant files / FCI objects with a bitwise 'container unchanged' invariant; exact-eigenvector local "
+             "energy on the grid; driver option matrix")
 TOL_O = 1e-9
 TOL_E = 1e-5
 NODE_FRAC = 1e-2
@@ -882,6 +896,528 @@ def replay_driver(case):
     return (len(v) > 0, dict(failures=[w for w, _ in v], block_energies=raw[:, 1], e_afqmc=e, E_exact=sysd["E"]))
 
 
+# ----------------------------------------------------------------------------- (4) high excitation ranks in one spin channel
+def occ_tuple(n, idx):
+    return tuple(1 if i in idx else 0 for i in range(n))
+
+
+def entry_factors(n, k, salt):
+    """Fixed generic complex factor per walker entry: a pure phase inside the reference block (keeps its diagonal dominance),
+    phase x magnitude in [0.7, 1.2] in the virtual rows."""
+    r, c = np.meshgrid(np.arange(n) + 1.0, np.arange(k) + 1.0, indexing="ij")
+    golden = 0.6180339887498949
+    mag = np.where(r <= k, 1.0, 0.7 + 0.5 * np.mod(golden * (r + salt) * (c + 1.0) + 0.31 * r * r, 1.0))
+    return np.exp(1j * (0.37 * r * r + 0.61 * c * c + 0.9 * r * c + 0.2 * salt)) * mag  # not of the form f(r) g(c)
+
+
+def generic_grid(n, na, nb, ref, seed, degree, restricted):
+    """Walker grid for the large sectors of part (4): the lower set {digit sum <= degree} of a product grid in which every
+    entry has its OWN pair (triple) of letters -- the catalogue letters times a fixed generic factor per entry.  With one
+    common letter set all virtual rows of the base walker coincide and every excitation block of rank >= 2 of the half
+    Green's function is exactly singular; with per-entry letters the blocks are generic matrices.  (Per-coordinate node
+    sets do not affect unisolvence.)  The reference block keeps its diagonal dominance.  degree < n_up+n_dn: declared cap."""
+    nlet = 3 if restricted else 2
+    Ea = n * na
+    E = Ea if restricted else n * (na + nb)
+    digits = lower_set_digits(E, nlet, degree)
+    Qa, Qb = trials.frame_for_ref(n, ref[0]), trials.frame_for_ref(n, ref[1])
+    Ga = al.block_from_digits(digits[:, :Ea], n, na, seed, nlet) * entry_factors(n, na, 0)[None]
+    if restricted:
+        W = np.einsum("pq,wqk->wpk", Qa, Ga)
+        return W, W[:, :, :na], W[:, :, :nb]
+    Gb = al.block_from_digits(digits[:, Ea:], n, nb, seed + 1, nlet) * entry_factors(n, nb, 4)[None]
+    return None, np.einsum("pq,wqk->wpk", Qa, Ga), np.einsum("pq,wqk->wpk", Qb, Gb)
+
+
+def kron_hamiltonian(n, na, nb, h0, h1, chol):
+    """The Fock model's H on the (n_up, n_dn) sector assembled from the two string spaces: a spin-conserving one-body
+    operator is A(T_a) x 1 + 1 x B(T_b) in the (alpha-string major, beta-string minor) basis (a beta pair operator
+    commutes through the alpha string).  Same definition as fock.Sector.hamiltonian, affordable for 6-8 orbitals;
+    cross-checked against it on a small sector in every job."""
+    SA, SB = fock.space(n, na), fock.space(n, nb)
+    IA, IB = np.eye(SA.dim), np.eye(SB.dim)
+    op1 = lambda Ta, Tb: np.kron(SA.op(Ta), IB) + np.kron(IA, SB.op(Tb))
+    H = h0 * np.eye(SA.dim * SB.dim) + op1(h1[0], h1[1])
+    for L in np.asarray(chol).reshape(-1, n, n):
+        Lh = op1(L, L)
+        H = H + 0.5 * (Lh @ Lh - op1(L @ L, L @ L))
+    return H
+
+
+def excite(ref_occ, n, k, which=0):
+    """Occupation string with k electrons of `ref_occ` moved to virtuals; `which` rotates the choice."""
+    occ = [i for i in range(n) if ref_occ[i]]
+    virt = [i for i in range(n) if not ref_occ[i]]
+    if k == 0:
+        return tuple(ref_occ)
+    if k > len(occ) or k > len(virt):
+        return None
+    o = [occ[(which + j) % len(occ)] for j in range(k)]
+    v = [virt[(len(virt) - 1 - which - j) % len(virt)] for j in range(k)]
+    new = set(occ) - set(o) | set(v)
+    return occ_tuple(n, new)
+
+
+def rank_lists(n, na, nb, ref, ranks, top, seed, w=0):
+    """Lists around `ref` for cut-off `top`: ONE determinant list (the reference + one determinant of every excitation class
+    (i, j), i + j <= top, that is of rank >= 3 in one spin or of total rank <= 2) carrying a basis of coefficient vectors:
+    for every class in `ranks` the pair (0.8 on the reference, 0.6 on the class) and the true unit vector, plus one dense
+    vector.  Zero coefficients stay in the list, so every vector has the same wave_data shapes (one compilation).
+    `w` rotates which electrons / virtuals the rank >= 3 determinants use (spectator electrons in between change the parity)."""
+    rng = np.random.default_rng(2200 + 13 * seed + n + 3 * na + nb + 7 * top)
+    classes, dets = [], []
+    for i in range(0, na + 1):
+        for j in range(0, nb + 1):
+            if 0 < i + j <= top and (i >= 3 or j >= 3 or i + j <= 2):
+                da = excite(ref[0], n, i, which=w if i >= 3 else (1 if i < na else 0))
+                db = excite(ref[1], n, j, which=w if j >= 3 else 0)
+                if da is not None and db is not None:
+                    classes.append((i, j))
+                    dets.append((da, db))
+    out = []
+    mk = lambda cs: [(ref[0], ref[1], cs[0])] + [(d[0], d[1], c) for d, c in zip(dets, cs[1:])]
+    for cls in ranks:
+        if cls in classes:
+            k = classes.index(cls)
+            for lab, c0, c1 in ((("pair", 0.8, 0.6), ("unit", 0.0, 1.0)) if w == 0 else (("unit", 0.0, 1.0),)):
+                cs = [c0] + [0.0] * len(dets)
+                cs[1 + k] = c1
+                out.append(("a%db%d-w%d-%s@%d" % (cls[0], cls[1], w, lab, top), mk(cs), cls, 1 + k))
+    dense = [1.0] + [float((0.3 + 0.6 * rng.random()) * (1 if rng.random() < 0.5 else -1)) for _ in dets]
+    hi = max(classes, key=lambda t: (max(t), sum(t)))
+    out.append(("dense-w%d@%d" % (w, top), mk(dense), hi, 1 + classes.index(hi)))
+    return out
+
+
+def rank_refs(n, na, nb):
+    """Catalogue of references: EVERY alpha string of the space (so every sign pattern of the excitation parities occurs),
+    the beta string inside the alpha string ("in": restricted walkers possible) and, for every third string, also a beta
+    string taken from the other end ("split": alpha and beta reference blocks differ)."""
+    out = []
+    for k, a in enumerate(itertools.combinations(range(n), na)):
+        out.append(("a%d-in" % k, (occ_tuple(n, a), occ_tuple(n, a[:nb]))))
+        if k % 3 == 1:
+            compl = [i for i in range(n) if i not in a]
+            out.append(("a%d-split" % k, (occ_tuple(n, a), occ_tuple(n, (compl[::-1] + list(a))[:nb]))))
+    return out
+
+
+def leaves_bytes(wd):
+    return tuple((name, k, np.asarray(v).tobytes(), str(np.asarray(v).dtype), np.shape(v))
+                 for name in ("Acre", "Ades", "Bcre", "Bdes", "coeff") for k, v in sorted(wd[name].items())) + (
+                     ("ref_det", np.asarray(wd["ref_det"]).tobytes()),)
+
+
+RANK_SIG = "get_excitations+multislater._calc_overlap/same-spin-excitation-rank>=3"
+_RANK_GRID = {}
+
+
+def rank_eval(cfg, ref, items, mx, mode, H=None, want_energy=True, kdet=-1):
+    """Library overlap and energy of one list on the generic grid of one container + the Fock-model values."""
+    jnp, wf = trials.lib()
+    n, na, nb, seed = cfg["n"], cfg["na"], cfg["nb"], cfg["seed"]
+    sec = fock.sector(n, na, nb)
+    key = (n, na, nb, ref, seed, mode, cfg["degree_r" if mode == "r" else "degree_u"])
+    if key not in _RANK_GRID:
+        _RANK_GRID.clear()  # one (reference, container) at a time: the amplitude matrices are large
+        W, Va, Vb = generic_grid(n, na, nb, ref, seed, key[-1], mode == "r")
+        ok_block = block_dets(ref, Va, Vb) >= 1e-2
+        _RANK_GRID[key] = (W, Va, Vb, ok_block) + ((sec.walker_vectors(Va, Vb), fock.minors(Va), fock.minors(Vb)) if ok_block else ())
+    g = _RANK_GRID[key]
+    if not g[3]:
+        return "restricted_grids_skipped_singular_reference_block"
+    W, Va, Vb, _, Phi, ma, mb = g
+    walkers = jnp.asarray(W) if mode == "r" else [jnp.asarray(Va), jnp.asarray(Vb)]
+    ket = ket_of(n, na, nb, items)
+    Oref = np.conj(ket) @ Phi
+    # pre-check on the inputs: a listed determinant whose alpha or beta minor of the walker vanishes makes an excitation
+    # block of the half Green's function exactly singular, where jax's det derivative (used by the one-body energy) is
+    # not defined reliably -- such walkers are excluded beforehand (none on the generic grids)
+    ia = {a: k for k, a in enumerate(sec.A)}
+    ib = {b: k for k, b in enumerate(sec.B)}
+    ok = np.ones(len(Oref), dtype=bool)
+    for a, b, c in items:
+        if c == 0.0:
+            continue
+        ka = ia[tuple(i for i in range(n) if a[i])]
+        kb = ib[tuple(i for i in range(n) if b[i])]
+        ok &= (np.abs(ma[:, ka]) > 1e-6 * np.abs(ma).max(axis=1)) & (np.abs(mb[:, kb]) > 1e-6 * np.abs(mb).max(axis=1))
+    trial, wd = build_wave_data("dict", n, na, nb, items, mx)
+    held = leaves_bytes(wd)
+    tr = gridmc.with_batch(trial, nbatch_for(len(Oref)))
+    O = np.asarray(gridmc.jitted(tr, "calc_overlap")(walkers, wd))
+    out = dict(O=O, Oref=Oref, ok=ok, Va=Va, Vb=Vb, top=np.abs(np.conj(ket_of(n, na, nb, items[kdet:][:1])) @ Phi))
+    if want_energy:
+        h0, h1, chol = cfg["_ham"]
+        hd = gridmc.build_ham_data(n, h0, h1, chol, tr, wd)
+        out["E"] = np.asarray(gridmc.jitted(tr, "calc_energy")(walkers, hd, wd))
+        out["N"] = (np.conj(ket) @ H) @ Phi
+    out["wave_data_intact"] = leaves_bytes(wd) == held
+    out["lib_coeff"] = {k: np.ravel(v) for k, v in wd["coeff"].items()}
+    return out
+
+
+def rank_verdict(out):
+    """-> (overlap error per point, energy error per point or None, escale)"""
+    O, Oref, ok = out["O"], out["Oref"], out["ok"]
+    scale = np.abs(Oref).max()
+    eo = np.abs(O - Oref) / np.maximum(np.abs(Oref), 1e-3 * scale)
+    eo = np.where(np.isfinite(O), eo, np.inf)
+    eo = np.where(ok, eo, 0.0)
+    if "E" not in out:
+        return eo, None, 1.0
+    good = ok & (np.abs(Oref) > NODE_FRAC * scale)
+    Eref = np.where(good, out["N"] / np.where(good, Oref, 1.0), 0.0)
+    escale = max(1.0, np.abs(Eref).max())
+    ee = np.where(np.isfinite(out["E"]), np.abs(out["E"] - Eref) / escale, np.inf)
+    return eo, np.where(good, ee, 0.0), escale
+
+
+def job_rank(cfg):
+    res = Result()
+    n, na, nb, seed = cfg["n"], cfg["na"], cfg["nb"], cfg["seed"]
+    # reference self-test: the string-space assembly of H equals the Fock model's on a small sector
+    t0, t1, tc = al.small_ham(3, 2, seed, scale=0.5)
+    if np.abs(kron_hamiltonian(3, 2, 1, t0, t1, tc) - fock.sector(3, 2, 1).hamiltonian(t0, t1, tc)).max() > 1e-12:
+        raise RuntimeError("kron_hamiltonian disagrees with fock.Sector.hamiltonian")
+    res.guard("kron_hamiltonian_selftest")
+    h0, h1, chol = al.small_ham(n, 2, seed, spin_dependent=False, scale=0.3)
+    cfg = dict(cfg, _ham=(h0, h1, chol))
+    H = kron_hamiltonian(n, na, nb, h0, h1, chol)
+    res.cap("same-spin rank>=3 lists, %d orbitals (%d,%d): walker grids are lower sets of degree %d (unrestricted) / %d (restricted) "
+            "< n_up+n_dn around a generic base walker -- a structured dense test in the walker dimension, not a decision" % (
+                n, na, nb, cfg["degree_u"], cfg["degree_r"]))
+    for refname, ref in rank_refs(n, na, nb):
+        if refname not in cfg["refs"]:
+            continue
+        for mode, mx, w in itertools.product(("u", "r"), cfg["cutoffs"], cfg["which"]):
+            for label, items, cls, kdet in rank_lists(n, na, nb, ref, [tuple(c) for c in cfg["ranks"]], mx, seed, w):
+                energy = mx in cfg["energy_cutoffs"]
+                if True:
+                    case = dict(part="rank", n=n, na=na, nb=nb, seed=seed, refname=refname, label=label, mode=mode, kdet=kdet,
+                                items=[[list(a), list(b), c] for a, b, c in items], max_excitation=mx,
+                                degree_u=cfg["degree_u"], degree_r=cfg["degree_r"])
+                    out = rank_eval(cfg, ref, items, mx, mode, H, energy, kdet)
+                    if isinstance(out, str):
+                        res.guard(out)
+                        continue
+                    eo, ee, escale = rank_verdict(out)
+                    P = len(eo)
+                    if out["ok"].mean() < 0.5:
+                        raise RuntimeError("pre-check excludes most of the grid (%d of %d kept) for %r" % (out["ok"].sum(), P, case))
+                    k = 2 if energy else 1
+                    res.add(states=P, transitions=k * P, evaluations=k * P, traces=k * P)
+                    res.guard("rank_points_" + mode, P)
+                    res.guard("rank_points_excluded_singular_excitation_block", int((~out["ok"]).sum()))
+                    res.guard("rank_lists_class_a%db%d" % cls)
+                    if "-unit@" in label and max(cls) >= 3 and min(cls) == 0 and mode == "u":
+                        res.guard("rank_same_spin_rank>=3_determinants_with_%s_parity" % ("negative" if out["lib_coeff"][cls].sum() < 0 else "positive"))
+                    if max(cls) >= 3 and np.median(out["top"] / np.maximum(np.abs(out["Oref"]), 1e-300)) > 1e-3:
+                        res.guard("rank_lists_where_the_high_rank_determinant_matters")
+                    res.nontrivial_values((n, na, nb, refname, label, mode, mx), out["Oref"], 10)
+                    if not out["wave_data_intact"]:
+                        res.violation("multislater.calc_overlap|calc_energy/mutates-caller-wave_data", dict(case, what="wave_data"), {})
+                    bo = gridmc.first_bad(eo, TOL_O)
+                    if bo is not None:
+                        res.violation(RANK_SIG, dict(case, what="overlap", point=bo),
+                                      dict(impl=out["O"][bo], ref=out["Oref"][bo], relerr=float(eo[bo]), n_bad=int((~(eo <= TOL_O)).sum()),
+                                           n_points=P, walker_up=out["Va"][bo], walker_dn=out["Vb"][bo]))
+                    if ee is not None:
+                        be = gridmc.first_bad(ee, TOL_E)
+                        if be is not None:
+                            res.violation(RANK_SIG if bo is not None else "multislater.calc_energy/same-spin-excitation-rank>=3/%s" % mode,
+                                          dict(case, what="energy", point=be),
+                                          dict(impl=out["E"][be], ref=out["N"][be] / out["Oref"][be], err=float(ee[be]), tol=TOL_E,
+                                               n_bad=int((~(ee <= TOL_E)).sum()), n_points=P))
+                        res.guard("rank_energy_points_" + mode, P)
+                    if cfg.get("sample") and refname == cfg["refs"][-1] and label.startswith("dense") and mode == "u" and mx == cfg["energy_cutoffs"][0]:
+                        res.sample(dict(part="same-spin-rank>=3", n=n, nelec=[na, nb], reference=[list(ref[0]), list(ref[1])],
+                                        classes=[list(c) for c in cfg["ranks"]], n_dets=len(items), max_excitation=mx, grid_points=P,
+                                        max_overlap_relerr=float(eo.max()), max_energy_err=None if ee is None else float(ee.max())))
+    return res
+
+
+def replay_rank(case):
+    n, na, nb = case["n"], case["na"], case["nb"]
+    cfg = dict(n=n, na=na, nb=nb, seed=case["seed"], degree_u=case["degree_u"], degree_r=case["degree_r"])
+    h0, h1, chol = al.small_ham(n, 2, case["seed"], spin_dependent=False, scale=0.3)
+    cfg["_ham"] = (h0, h1, chol)
+    H = kron_hamiltonian(n, na, nb, h0, h1, chol)
+    ref = dict(rank_refs(n, na, nb))[case["refname"]]
+    items = [(tuple(int(x) for x in a), tuple(int(x) for x in b), float(c)) for a, b, c in case["items"]]
+    out = rank_eval(cfg, ref, items, int(case["max_excitation"]), case["mode"], H, case["what"] == "energy", int(case.get("kdet", -1)))
+    if isinstance(out, str):
+        return (False, dict(excluded_by_input_precheck=out))
+    if case["what"] == "wave_data":
+        return (not out["wave_data_intact"], {})
+    eo, ee, _ = rank_verdict(out)
+    i = int(case["point"])
+    if case["what"] == "overlap":
+        return (not eo[i] <= TOL_O, dict(impl=out["O"][i], ref=out["Oref"][i], relerr=float(eo[i])))
+    return (not ee[i] <= TOL_E, dict(impl=out["E"][i], ref=out["N"][i] / out["Oref"][i], err=float(ee[i])))
+
+
+# ----------------------------------------------------------------------------- (5) caller-owned containers over call histories
+def snapshot(state):
+    """Bitwise picture of a state dict: key order, key contents, value type and the 8 bytes of every coefficient."""
+    return [(tuple(tuple(int(x) for x in s) for s in k), type(v).__name__, struct.pack("d", float(v))) for k, v in state.items()]
+
+
+def file_digest(path):
+    with open(path, "rb") as f:
+        return f.read()
+
+
+def seq_words(letters, depth):
+    out = []
+    for L in range(1, depth + 1):
+        out += list(itertools.product(letters, repeat=L))
+    return out
+
+
+def seq_menu(items):
+    """Operation letters for get_excitations on one caller-owned state: (name, max_excitation, ndets, judged list)."""
+    need = needed(items)
+    k = (len(items) + 1) // 2
+    menu = [("full", need, None, items), ("wide", need + 1, None, items), ("half", needed(items[:k]), k, items[:k])]
+    if need > 1:
+        menu.append(("narrow", 1, None, None))  # drops determinants: outside the property, not judged -- but a legal call
+    return menu
+
+
+def make_state(source, n, na, nb, items, tmp):
+    """A fresh caller-owned state dict from one source (+ the list the oracle holds separately)."""
+    from ad_afqmc import pyscf_interface as pi
+
+    if source == "dict":
+        return as_state(items), items
+    if source == "npdict":  # numpy scalars as values, as get_fci_state produces them
+        return {k: np.float64(v) for k, v in as_state(items).items()}, items
+    if source == "file":
+        path = os.path.join(tmp, "seq.bin")
+        write_dets(path, n, items)
+        return pi.read_dets(path)[1], items
+    its = positional("dense", items)
+    return pi.get_fci_state(fci_object(n, na, nb, its)), its
+
+
+def job_seq(cfg):
+    """Histories: the SAME caller-owned container passed through every word (length <= depth) of a menu of calls.
+    After every call the container is bitwise what it was, and the result means what a fresh call would mean
+    (library overlap on the walker grid against the Fock sum built from the separately held list)."""
+    res = Result()
+    jnp, wf = trials.lib()
+    from ad_afqmc import pyscf_interface as pi
+
+    seed, depth = cfg["seed"], cfg["depth"]
+    with scratch_dir() as tmp:
+        for (n, na, nb, refs) in cfg["spaces"]:
+            dets = trials.all_dets(n, na, nb)
+            sec = fock.sector(n, na, nb)
+            dc = dense_coeffs(n, na, nb, seed)
+            for r in refs:
+                ref = dets[r]
+                items0 = lists_for_ref(dets, r, dc, ("dense",))[0][2]
+                grid, Wa, Wb = ref_grid(n, na, nb, ref, seed, cfg["cap"])
+                ja, jb = jnp.asarray(Wa), jnp.asarray(Wb)
+                Phi = sec.walker_vectors(Wa, Wb)
+                P = grid["P"]
+                verdicts = {}
+
+                def judge(wd, trial, eff):
+                    key = (leaves_bytes(wd), tuple(eff))
+                    if key not in verdicts:
+                        O = eval_overlaps(trial, [wd], ja, jb, 1)[0]
+                        Oref = np.conj(ket_of(n, na, nb, eff)) @ Phi
+                        err = np.abs(O - Oref) / np.maximum(np.abs(Oref), 1e-3 * np.abs(Oref).max())
+                        err = np.where(np.isfinite(O), err, np.inf)
+                        b = gridmc.first_bad(err, TOL_O)
+                        verdicts[key] = None if b is None else dict(point=b, impl=O[b], ref=Oref[b], relerr=float(err[b]))
+                        res.add(states=P, transitions=P, evaluations=P, traces=P)
+                        res.guard("seq_distinct_results_judged_on_the_grid")
+                    return verdicts[key]
+
+                for source in cfg["sources"]:
+                    base = dict(part="seq", n=n, na=na, nb=nb, seed=seed, cap=cfg["cap"], ref=r, source=source)
+                    # ---- get_excitations(state=...) on one state over call histories
+                    st0, held = make_state(source, n, na, nb, items0, tmp)
+                    menu = seq_menu(held)
+                    byname = {m[0]: m for m in menu}
+                    neg = 0
+                    for word in seq_words([m[0] for m in menu], depth):
+                        state, _ = make_state(source, n, na, nb, items0, tmp)
+                        snap = snapshot(state)
+                        mutated_at = None
+                        for t, name in enumerate(word):
+                            _, mx, nd, eff = byname[name]
+                            case = dict(base, routine="get_excitations", word=list(word), step=t)
+                            try:
+                                out = pi.get_excitations(state=state, max_excitation=mx, ndets=nd)
+                            except Exception as e:
+                                res.violation("get_excitations/raises-%s-on-a-reused-state" % type(e).__name__, dict(case, what="raises"),
+                                              dict(error=repr(e)[:300]))
+                                break
+                            res.add(states=1, transitions=1, evaluations=1, traces=1)
+                            res.guard("seq_calls_get_excitations")
+                            if mutated_at is None and snapshot(state) != snap:
+                                mutated_at = t
+                                now = snapshot(state)
+                                diff = [(a[0], struct.unpack("d", a[2])[0], struct.unpack("d", b[2])[0]) for a, b in zip(snap, now) if a != b][:3]
+                                res.violation("get_excitations/mutates-caller-state", dict(case, what="state"),
+                                              dict(changed_entries=len([1 for a, b in zip(snap, now) if a != b]) + abs(len(snap) - len(now)),
+                                                   first_changes=[dict(det=[list(x) for x in d], before=b0, after=b1) for d, b0, b1 in diff]))
+                            if eff is None:
+                                continue
+                            wd = canon(out)
+                            v = judge(wd, wf.multislater(n, (na, nb), mx), eff)
+                            if t == 0 and name == "full":
+                                cvals = np.concatenate([np.ravel(wd["coeff"][k]) for k in sorted(wd["coeff"])])
+                                neg = int(sum(1 for a, b, c in held if not np.any(np.isclose(cvals, c, rtol=0, atol=1e-15))))
+                            if v is not None:
+                                fresh_ok = t == 0
+                                sig = ROOT_SIG if fresh_ok else ("get_excitations/mutates-caller-state" if mutated_at is not None
+                                                                 else "get_excitations/result-depends-on-call-history")
+                                res.violation(sig, dict(case, what="result", point=v["point"]), dict(v, history=list(word[:t + 1])))
+                        res.nontrivial((n, na, nb, r, source, word))
+                    res.guard("seq_words", len(seq_words([m[0] for m in menu], depth)))
+                    res.guard("seq_determinants_with_negative_parity", neg)
+                # ---- get_excitations(fname=...): the file is the caller's container
+                path = os.path.join(tmp, "hist.bin")
+                write_dets(path, n, items0)
+                fbytes = file_digest(path)
+                menu = seq_menu(items0)
+                byname = {m[0]: m for m in menu}
+                base = dict(part="seq", n=n, na=na, nb=nb, seed=seed, cap=cfg["cap"], ref=r, source="fname")
+                for word in seq_words([m[0] for m in menu], min(depth, 2)):
+                    for t, name in enumerate(word):
+                        _, mx, nd, eff = byname[name]
+                        case = dict(base, routine="get_excitations(fname)", word=list(word), step=t)
+                        out = pi.get_excitations(fname=path, max_excitation=mx, ndets=nd)
+                        res.add(states=1, transitions=1, evaluations=1, traces=1)
+                        res.guard("seq_calls_get_excitations_fname")
+                        if file_digest(path) != fbytes:
+                            res.violation("get_excitations/rewrites-the-determinant-file", dict(case, what="file"), {})
+                            write_dets(path, n, items0)
+                        if eff is not None:
+                            v = judge(canon(out), wf.multislater(n, (na, nb), mx), eff)
+                            if v is not None:
+                                res.violation(ROOT_SIG if t == 0 else "get_excitations/result-depends-on-call-history",
+                                              dict(case, what="result", point=v["point"]), dict(v, history=list(word[:t + 1])))
+                # ---- read_dets: file reused, returned state reused
+                k = (len(items0) + 1) // 2
+                rmenu = {"all": (None, items0), "half": (k, items0[:k]), "one": (1, items0[:1])}
+                base = dict(part="seq", n=n, na=na, nb=nb, seed=seed, cap=cfg["cap"], ref=r, source="file")
+                for word in seq_words(list(rmenu), min(depth, 3)):
+                    for t, name in enumerate(word):
+                        nd, eff = rmenu[name]
+                        case = dict(base, routine="read_dets", word=list(word), step=t)
+                        norbs, st, nall = pi.read_dets(path, nd)
+                        res.add(states=1, transitions=1, evaluations=1, traces=1)
+                        res.guard("seq_calls_read_dets")
+                        if file_digest(path) != fbytes:
+                            res.violation("read_dets/rewrites-the-determinant-file", dict(case, what="file"), {})
+                            write_dets(path, n, items0)
+                        good = (norbs == n and nall == len(items0) and list(st.keys()) == [(tuple(a), tuple(b)) for a, b, _ in eff]
+                                and np.abs(ket_of(n, na, nb, [(a, b, c) for (a, b), c in st.items()]) - ket_of(n, na, nb, eff)).max() < 1e-15)
+                        if not good:
+                            res.violation("read_dets/list-overlap" if t == 0 else "read_dets/result-depends-on-call-history",
+                                          dict(case, what="read"), dict(norbs=int(norbs), ndets_all=int(nall), n_read=len(st), history=list(word[:t + 1])))
+                # ---- get_fci_state: the FCI object is the caller's container
+                its = positional("dense", items0)
+                fmenu = {"all": (dict(), its), "half": (dict(ndets=k), its[:k]), "tol0": (dict(tol=0.0), its),
+                         "tol.5": (dict(tol=0.5), [t_ for t_ in its if abs(t_[2]) > 0.5])}
+                base = dict(part="seq", n=n, na=na, nb=nb, seed=seed, cap=cfg["cap"], ref=r, source="fci")
+                for word in seq_words(list(fmenu), min(depth, 3)):
+                    obj = fci_object(n, na, nb, its)
+                    ci0 = obj.ci.tobytes()
+                    for t, name in enumerate(word):
+                        kw, eff = fmenu[name]
+                        case = dict(base, routine="get_fci_state", word=list(word), step=t)
+                        st = pi.get_fci_state(obj, **kw)
+                        res.add(states=1, transitions=1, evaluations=1, traces=1)
+                        res.guard("seq_calls_get_fci_state")
+                        if obj.ci.tobytes() != ci0 or obj.norb != n or tuple(obj.nelec) != (na, nb):
+                            res.violation("get_fci_state/mutates-the-fci-object", dict(case, what="fci-object"), {})
+                            obj = fci_object(n, na, nb, its)
+                        good = (len(st) == len(eff) and
+                                np.abs(ket_of(n, na, nb, [(a, b, c) for (a, b), c in st.items()]) - ket_of(n, na, nb, eff)).max() < 1e-15)
+                        if not good:
+                            res.violation("get_fci_state/list-overlap" if t == 0 else "get_fci_state/result-depends-on-call-history",
+                                          dict(case, what="fci-state"), dict(n_returned=len(st), n_expected=len(eff), history=list(word[:t + 1])))
+                if cfg.get("sample") and r == refs[0]:
+                    res.sample(dict(part="call-histories", n=n, nelec=[na, nb], reference=[list(ref[0]), list(ref[1])], n_dets=len(items0),
+                                    menu=[m[:3] for m in seq_menu(items0)], depth=depth, sources=cfg["sources"], grid_points=P))
+    return res
+
+
+def replay_seq(case):
+    jnp, wf = trials.lib()
+    from ad_afqmc import pyscf_interface as pi
+
+    n, na, nb, seed, r = case["n"], case["na"], case["nb"], case["seed"], case["ref"]
+    dets = trials.all_dets(n, na, nb)
+    sec = fock.sector(n, na, nb)
+    items0 = lists_for_ref(dets, r, dense_coeffs(n, na, nb, seed), ("dense",))[0][2]
+    word, step, routine = list(case["word"]), int(case["step"]), case["routine"]
+    k = (len(items0) + 1) // 2
+    with scratch_dir() as tmp:
+        path = os.path.join(tmp, "hist.bin")
+        write_dets(path, n, items0)
+        fbytes = file_digest(path)
+        if routine == "read_dets":
+            rmenu = {"all": (None, items0), "half": (k, items0[:k]), "one": (1, items0[:1])}
+            for t, name in enumerate(word[: step + 1]):
+                norbs, st, nall = pi.read_dets(path, rmenu[name][0])
+            eff = rmenu[word[step]][1]
+            if case["what"] == "file":
+                return (file_digest(path) != fbytes, {})
+            good = (norbs == n and nall == len(items0) and list(st.keys()) == [(tuple(a), tuple(b)) for a, b, _ in eff]
+                    and np.abs(ket_of(n, na, nb, [(a, b, c) for (a, b), c in st.items()]) - ket_of(n, na, nb, eff)).max() < 1e-15)
+            return (not good, dict(n_read=len(st)))
+        if routine == "get_fci_state":
+            its = positional("dense", items0)
+            fmenu = {"all": (dict(), its), "half": (dict(ndets=k), its[:k]), "tol0": (dict(tol=0.0), its),
+                     "tol.5": (dict(tol=0.5), [t_ for t_ in its if abs(t_[2]) > 0.5])}
+            obj = fci_object(n, na, nb, its)
+            ci0 = obj.ci.tobytes()
+            for name in word[: step + 1]:
+                st = pi.get_fci_state(obj, **fmenu[name][0])
+            if case["what"] == "fci-object":
+                return (obj.ci.tobytes() != ci0, {})
+            eff = fmenu[word[step]][1]
+            good = (len(st) == len(eff) and
+                    np.abs(ket_of(n, na, nb, [(a, b, c) for (a, b), c in st.items()]) - ket_of(n, na, nb, eff)).max() < 1e-15)
+            return (not good, dict(n_returned=len(st), n_expected=len(eff)))
+        # get_excitations on a state / on the file
+        if routine == "get_excitations":
+            state, held = make_state(case["source"], n, na, nb, items0, tmp)
+            snap = snapshot(state)
+        else:
+            state, held = None, items0
+        byname = {m[0]: m for m in seq_menu(held)}
+        out, err = None, None
+        for name in word[: step + 1]:
+            _, mx, nd, eff = byname[name]
+            try:
+                out = pi.get_excitations(state=state, max_excitation=mx, ndets=nd) if state is not None else \
+                    pi.get_excitations(fname=path, max_excitation=mx, ndets=nd)
+            except Exception as e:
+                err = e
+                break
+        if case["what"] == "raises":
+            return (err is not None, dict(error=repr(err)[:300]))
+        if case["what"] == "state":
+            return (snapshot(state) != snap, dict(entries_changed=len([1 for a, b in zip(snap, snapshot(state)) if a != b])))
+        if case["what"] == "file":
+            return (file_digest(path) != fbytes, {})
+        _, Wa, Wb = ref_grid(n, na, nb, dets[r], seed, case["cap"])
+        i = int(case["point"])
+        O = complex(np.asarray(wf.multislater(n, (na, nb), mx)._calc_overlap(jnp.asarray(Wa[i]), jnp.asarray(Wb[i]), canon(out))))
+        Oref = np.conj(ket_of(n, na, nb, eff)) @ sec.walker_vectors(Wa, Wb)
+        e = abs(O - Oref[i]) / max(abs(Oref[i]), 1e-3 * np.abs(Oref).max())
+        return (not e <= TOL_O, dict(impl=O, ref=Oref[i], relerr=float(e)))
+
+
 # ----------------------------------------------------------------------------- enumeration
 SPACES3 = [(3, 1, 1), (3, 2, 1), (3, 2, 2), (3, 3, 1), (3, 3, 2), (3, 3, 3)]
 SPACES4 = [(4, 2, 1), (4, 2, 2)]
@@ -984,9 +1520,47 @@ def driver_configs(tier, seed):
     return out
 
 
+def rank_configs(tier, seed):
+    """7 orbitals (4,3): alpha rank 3 with a spectator electron (both parities occur), beta rank 3 with a spare virtual."""
+    thorough = tier == "thorough"
+    out = []
+    for (n, na, nb) in ([(7, 4, 3), (6, 3, 3), (6, 3, 2)] if thorough else [(7, 4, 3)]):
+        ranks = [(3, 0), (3, 1)] + ([(0, 3), (1, 3)] if nb >= 3 else [])
+        if thorough:
+            ranks += [(3, 2)] + ([(2, 3), (3, 3)] if nb >= 3 else [])
+        names = [nm for nm, _ in rank_refs(n, na, nb)]
+        pick = names if thorough else [names[i] for i in spread(len(names), 6)]
+        nblk = 4 if (thorough and n == 7) else (2 if thorough else 1)
+        for b in range(nblk):
+            deep = thorough and n == 6 and nb == 3  # (3,3) in 6 orbitals also carries the cut-off 6 lists (class (3,3))
+            out.append(dict(n=n, na=na, nb=nb, seed=seed, tier=tier, refs=pick[b::nblk], ranks=ranks, which=[0, 1, 2, 3] if thorough else [0, 2],
+                            cutoffs=([3, 4, 5, 6] if deep else [3, 4, 5]) if thorough else [3, 4],
+                            energy_cutoffs=([4, 6] if deep else [4, 3]) if thorough else [4],
+                            degree_u=2, degree_r=3 if thorough else 2, sample=(n == 7 and b == 0)))
+    if thorough:
+        for (n, na, nb) in [(8, 4, 1), (8, 4, 4)]:
+            ranks = [(4, 0), (3, 0), (4, 1)] + ([(0, 4), (1, 4), (0, 3)] if nb >= 4 else [])
+            names = [nm for nm, _ in rank_refs(n, na, nb)]
+            out.append(dict(n=n, na=na, nb=nb, seed=seed, tier=tier, refs=[names[i] for i in spread(len(names), 8)], ranks=ranks,
+                            which=[0, 1], cutoffs=[4, 5], energy_cutoffs=[5], degree_u=2, degree_r=2))
+    return out
+
+
+def seq_configs(tier, seed):
+    thorough = tier == "thorough"
+    nd = lambda n, na, nb: len(trials.all_dets(n, na, nb))
+    src = ["dict", "npdict", "file", "fci"]
+    if not thorough:
+        return [dict(seed=seed, tier=tier, depth=3, sources=src, cap=6000, sample=True,
+                     spaces=[(3, 2, 1, spread(nd(3, 2, 1), 3)), (4, 2, 2, [7, 23])])]
+    return [dict(seed=seed, tier=tier, depth=4, sources=src, cap=6000, sample=(k == 0), spaces=[sp])
+            for k, sp in enumerate([(3, 2, 1, list(range(9))), (3, 2, 2, list(range(9))), (4, 2, 1, spread(nd(4, 2, 1), 6)),
+                                    (4, 2, 2, spread(nd(4, 2, 2), 3)), (4, 2, 2, [7, 23, 30])])]
+
+
 def job(cfg):
-    """Dispatcher (one pool for all three parts, most expensive jobs first)."""
-    return {"repr": job_repr, "zv": job_zv, "driver": job_driver}[cfg["part"]](cfg)
+    """Dispatcher (one pool for all parts, most expensive jobs first)."""
+    return {"repr": job_repr, "zv": job_zv, "driver": job_driver, "rank": job_rank, "seq": job_seq}[cfg["part"]](cfg)
 
 
 def run(ctx):
@@ -997,7 +1571,15 @@ def run(ctx):
                 "sum_i c_i <A_i B_i|phi>; (2) exact eigenvectors (every eigenvector of generic Hamiltonians in the thorough tier, lowest "
                 "and highest in quick; pyscf FCI ground states of H2/H4/LiH) x every non-negligible reference x {unrestricted, restricted} "
                 "x walker grid, oracle E_L = E_k; (3) driver.afqmc option matrix (container x n_batch x sampler shape x n_eql x dt x "
-                "seed list) on the exact trial, oracle every block energy and the returned mean = E_0.  A state is one (list, source, "
+                "seed list) on the exact trial, oracle every block energy and the returned mean = E_0; (4) 6 orbitals (3,2),(3,3) [thorough: "
+                "also 8 orbitals (4,1),(4,4)] x references {aufbau, non-aufbau with beta inside alpha, non-aufbau with different strings} x "
+                "one determinant per excitation class (i,j) incl. same-spin rank 3 (4) and mixed (3,1),(1,3) [thorough (3,2),(2,3),(3,3),(4,1),"
+                "(1,4)] x coefficient basis {pair, unit vector, dense} x cut-off x {unrestricted, restricted} x generic lower-set walker "
+                "grid, oracle overlap and <psi|H|phi>/<psi|phi> from the string-space Fock Hamiltonian; (5) call histories: the same "
+                "caller-owned container (python dict, numpy-valued dict, read_dets result, get_fci_state result; determinant file; FCI "
+                "object) through every word of length <= 3 (4 thorough) over the menu {needed, needed+1, leading half via ndets, cut-off 1} "
+                "resp. {ndets} / {ndets, tol}, after every call: container bitwise unchanged and result = Fock sum of the separately held "
+                "list on the walker grid.  A state is one (list, source, "
                 "cut-off, walker) / (eigenvector, reference, container, walker) / (cell, seed, block); distinct & non-trivial = distinct "
                 "(list, source, cut-off) cases with non-zero oracle overlap, distinct non-zero oracle overlaps, distinct block weights")
     ctx.assume("walker grids: full product grid (2 non-real letters per entry, 3 for restricted walkers) up to 4096 points, beyond that the "
@@ -1007,10 +1589,16 @@ def run(ctx):
                "unrestricted grid is additionally checked to span the (n_up,n_dn) sector")
     ctx.assume("pyscf.fci string addressing / sign convention equals the Fock model's alpha-string x beta-string convention up to a global "
                "sign per sector (the Hamiltonian matrices agree element-wise; verified in the design of this check)")
+    ctx.assume("part (4): walkers on which a listed determinant has a vanishing alpha or beta minor are excluded beforehand (counted): an "
+               "excitation block of the half Green's function is then exactly singular and jax.numpy.linalg.det has no reliable derivative "
+               "there (jax 0.11: AD of det at an exactly singular 3x3 block differs from the finite difference by O(1)); measure-zero for "
+               "sampled walkers, frequent on letter grids with one common base letter -- hence the generic base walker")
     ctx.assume("'every seed' of the driver is decided by (2): E_L = E_0 for every walker; the driver cells enumerate a fixed seed list")
     ctx.assume("finite-difference local energy (eps = 1e-4): tolerance 1e-5 relative to max(1,|E|); walkers with reference overlap below "
                "1e-2 of the grid maximum are judged by the residual of N - E O = 0 only")
     jobs = [dict(c, part="driver") for c in driver_configs(ctx.tier, ctx.seed)]
+    jobs += [dict(c, part="rank") for c in rank_configs(ctx.tier, ctx.seed)]
+    jobs += [dict(c, part="seq") for c in seq_configs(ctx.tier, ctx.seed)]
     jobs += [dict(c, part="zv") for c in zv_configs(ctx.tier, ctx.seed)]
     rj = [dict(c, part="repr") for c in repr_configs(ctx.tier, ctx.seed)]
     rj.sort(key=lambda c: -(len(trials.all_dets(c["n"], c["na"], c["nb"])) ** 2) * len(c["refs"]))
@@ -1024,6 +1612,11 @@ def run(ctx):
         with contextlib.suppress(OSError):
             os.rmdir(TMP_ROOT)  # every cell removes its own directory; the root goes only when empty
     attribute(ctx.violations)
+    ctx.require_guard("rank_points_u", "rank_points_r", "rank_energy_points_u", "rank_energy_points_r", "rank_lists_class_a3b0",
+                      "rank_lists_class_a0b3", "rank_lists_class_a3b1", "rank_lists_where_the_high_rank_determinant_matters",
+                      "rank_same_spin_rank>=3_determinants_with_negative_parity", "rank_same_spin_rank>=3_determinants_with_positive_parity",
+                      "seq_calls_get_excitations", "seq_calls_get_excitations_fname", "seq_calls_read_dets", "seq_calls_get_fci_state",
+                      "seq_determinants_with_negative_parity", "seq_distinct_results_judged_on_the_grid", "kron_hamiltonian_selftest")
     ctx.require_guard("grids_spanning_the_sector", "lists_single", "lists_pair", "lists_triple", "lists_dense", "lists_src_dict",
                       "lists_src_file", "lists_src_fci", "lists_cutoff_above_needed", "public_calc_overlap_u", "public_calc_overlap_r",
                       "zv_points_u", "zv_points_r", "zv_references", "control_inexact_trial_deviates", "driver_runs",
@@ -1035,7 +1628,7 @@ def attribute(violations):
     signature (a wrong representation makes the full-vector overlap, the local energy and the driver's block energies
     wrong; a wrong local energy makes the block energies wrong).  Nothing is removed: every case stays in the list and
     is replayable; the attribution only decides under which signature it is reported."""
-    rank = {"repr": 0, "repr-public": 1, "zv": 2, "driver": 3}
+    rank = {"repr": 0, "repr-public": 1, "rank": 1, "seq": 1, "zv": 2, "driver": 3}
     violations.sort(key=lambda v: (rank.get(v["case"].get("part"), 9), len(v["case"].get("items", [])), v["case"].get("n", 9),
                                    v["case"].get("extra", 0)))
     layer = lambda v: rank.get(v["case"].get("part"), 9)
@@ -1067,4 +1660,8 @@ def replay(case):
         return replay_repr(case)
     if part == "zv":
         return replay_zv(case)
+    if part == "rank":
+        return replay_rank(case)
+    if part == "seq":
+        return replay_seq(case)
     return replay_driver(case)
